@@ -26,5 +26,8 @@ BENIGN = [
     ("early return on hit", [(SD, "        if idx not in self.shared_dict:\n            sample = self.dataset[idx]\n            self.shared_dict[idx] = sample\n        else:\n            sample = self.shared_dict[idx]\n        return sample\n", "        if idx in self.shared_dict:\n            return self.shared_dict[idx]\n        sample = self.dataset[idx]\n        self.shared_dict[idx] = sample\n        return sample\n")]),
     ("store inline", [(SD, "            sample = self.dataset[idx]\n            self.shared_dict[idx] = sample\n", "            self.shared_dict[idx] = sample = self.dataset[idx]\n")]),
     ("transform via conditional expression", [(CD, "        if self.transform is not None:\n            sample = self.transform(sample)\n        return sample\n", "        if self.transform is not None:\n            return self.transform(sample)\n        return sample\n")]),
+    ("transform on a deep copy (repairs the aliasing finding)", [
+        (CD, "import logging\n", "import copy\nimport logging\n"),
+        (CD, "            sample = self.transform(sample)\n", "            sample = self.transform(copy.deepcopy(sample))\n")]),
     ("dispose replaces the dict", [(SD, "        self.shared_dict.clear()", "        self.shared_dict.clear()\n        self.logger.info('cleared')")]),
 ]
